@@ -25,6 +25,19 @@ PURE_METHODS = {'get', 'lower', 'upper', 'startswith', 'endswith', 'join', 'stri
                 'index', 'count', 'replace', 'format', 'keys', 'values', 'items', 'isdigit', 'isalpha', 'group', 'title', 'center', 'splitlines'}
 
 
+def reads_heap(val):
+    """does the expression read an attribute / element that a later call or store could change?  (`_cN[k]`, the k-th
+    component of a tuple a call returned, is a destructuring, not a heap read)"""
+    for n in ast.walk(val):
+        if isinstance(n, ast.Attribute):
+            return True
+        if isinstance(n, ast.Subscript):
+            if isinstance(n.value, ast.Name) and n.value.id.startswith('_c') and isinstance(n.slice, ast.Constant):
+                continue
+            return True
+    return False
+
+
 class Unsupported(Exception):
     pass
 
@@ -513,7 +526,7 @@ class SymPaths:
         # a loop / try block may call and store anything: freeze what reads the heap, make heap tests stale
         self.nfreeze += 1
         for name, val in list(path.env.items()):
-            if any(isinstance(n, (ast.Attribute, ast.Subscript)) for n in ast.walk(val)):
+            if reads_heap(val):
                 sym = '_s%d_%s' % (self.nfreeze, name)
                 self.snaps[sym] = (name, val, len(path.events))
                 path.env[name] = ast.Name(id=sym, ctx=ast.Load())
@@ -549,7 +562,7 @@ class SymPaths:
         for name in self.rebound:
             path.env[name] = ast.Name(id='_h%d_%s' % (self.nfreeze, name), ctx=ast.Load())      # a nested function may re-bind it (nonlocal)
         for name, val in list(path.env.items()):
-            if any(isinstance(n, (ast.Attribute, ast.Subscript)) for n in ast.walk(val)):
+            if reads_heap(val):
                 sym = '_s%d_%s' % (self.nfreeze, name)
                 self.snaps[sym] = (name, val, len(path.events))
                 path.env[name] = ast.Name(id=sym, ctx=ast.Load())
